@@ -5,6 +5,7 @@ import random
 
 from vt.world import World, REPO
 from vt import monitors as M
+from vt import engine
 
 PROPERTY = 'C08'
 LEVEL = 'exploration'
@@ -131,7 +132,7 @@ def one_run(case, plan, seed):
                         # make sure the job thread of this stack makes passes while the handler is suspended (on its own it sleeps until the
                         # next deadline it knows of): an unrelated one-shot application timer, added now, due in the middle of the hold
                         nodes[name].ecu.add_timer(hold / 2, lambda cookie: False)
-                    sim.block_current(until=sim.now + hold, jitter=False)
+                    sim.block_current(until=sim.now + hold, waitobj=engine.HOLD, jitter=False)
                     if rx:
                         # non-trivial = the job thread of the same stack ran (finished at least one pass) while the handler was suspended
                         got = (len(js.waits) - w0) if js is not None else 0
